@@ -215,6 +215,14 @@ def make_io(fs):
         fs.dirs.add(name)
         return S.record("TemporaryDirectory", __enter__=S._NativeFn(lambda: name), __exit__=S._NativeFn(lambda *a: None))
 
+    def vopen(ev, path, mode="r", encoding=None, **kw):
+        # open(name, mode) used as a context manager: the handle is a file of the virtual file system (reading a file nobody wrote fails)
+        p = str(path.path if isinstance(path, (VFile, VPath)) else path)
+        if "r" in mode and "+" not in mode and p not in fs.files:
+            raise S.Raised("FileNotFoundError", p)
+        f = VFile(fs, p)
+        return S.record("file", __enter__=S._NativeFn(lambda: f), __exit__=S._NativeFn(lambda *a: None), close=S._NativeFn(lambda: None))
+
     def taropen(ev, path, mode="r"):
         p = str(path)
 
@@ -241,7 +249,7 @@ def make_io(fs):
     return {
         "yaml.dump": ydump, "yaml.safe_dump": ydump, "yaml.safe_load": yload, "yaml.load": yload,
         "numpy.savez_compressed": savez, "numpy.savez": savez, "numpy.load": npload,
-        "tempfile.TemporaryDirectory": tmpdir, "tarfile.open": taropen,
+        "tempfile.TemporaryDirectory": tmpdir, "tarfile.open": taropen, "builtins.open": vopen,
         "pathlib.Path": lambda ev, p: p if isinstance(p, VPath) else VPath(fs, p),
         "time.time": lambda ev: 0,
     }
@@ -466,6 +474,13 @@ def _job(spec):
             d = diff_desc(ref, describe_output(back2, names))
             if d:
                 problems.append(f"yaml via stream: {d}")
+            # through the file-name API
+            if out_cls.find_method("dump_yaml_to_file") is not None and out_cls.find_method("load_yaml_from_file") is not None:
+                ev.call(ev.getattr(out, "dump_yaml_to_file", None), ["/named.yaml"], {})
+                back4 = ev.call(ev.getattr(S.ClassVal(ev, out_cls), "load_yaml_from_file", None), ["/named.yaml"], {})
+                d = diff_desc(ref, describe_output(back4, names))
+                if d:
+                    problems.append(f"yaml via dump_yaml_to_file / load_yaml_from_file: {d}")
             if not problems:
                 # repeated cycles may alternate formats: the object loaded from YAML goes through tar
                 try:
